@@ -221,6 +221,15 @@ class ZFn:
     def val_call(s, t, V, field):
         fn = t["func"].get("fn") or {}
         name = fn.get("name")
+        if name in ("len", "is_empty") and (fn.get("path") or "").startswith("core::slice::<impl [T]>::") and len(t["args"]) == 1 and any(k[0] == "LEN" for k in V):
+            # the length of a slice held in a field of the receiver (a cursor's remaining slice), tracked as a pseudo-value
+            from .dfx import Dfx, strip as _dstrip
+            if not hasattr(s, "_dfx"): s._dfx = Dfx(Body_shim(s.b))
+            e = _dstrip(s._dfx.expr(t["args"][0]))
+            if e[0] == "field" and _dstrip(e[1]) in (("param", 1), ("deref", ("param", 1))):
+                key = ("LEN", 1, e[2])
+                if key in V:
+                    return {V[key]} if name == "len" else {V[key] == "Z"}
         if name in ("num_rows", "num_cols") and len(t["args"]) == 1 and t["args"][0]["k"] in ("copy", "move"):
             base = t["args"][0]["p"]; tgt = s.ref_target(base["local"]) if not base["proj"] else None
             root = (tgt["local"] if tgt and (not tgt["proj"] or all(e["k"] == "deref" for e in tgt["proj"])) else base["local"])     # `&*self` is self
@@ -228,7 +237,7 @@ class ZFn:
             if key in V: return {V[key]}
         return {"Z", "NZ", True, False}
     # ---------- analysis
-    def run(s, tracked, entry_pairs, sinks):
+    def run(s, tracked, entry_pairs, sinks, entry_imps=()):
         """tracked: list of keys; entry_pairs: list of (rows_key, cols_key) constrained by the invariant at entry;
         sinks: callback(block, stmt_index|'term', valuations) -> None"""
         b = s.b
@@ -236,7 +245,7 @@ class ZFn:
         init = []
         for combo in itertools.product(("Z", "NZ"), repeat=len(keys)):
             V = dict(zip(keys, combo))
-            if all((V[r] == "Z") == (V[c] == "Z") for r, c in entry_pairs): init.append(tuple(combo))
+            if all((V[r] == "Z") == (V[c] == "Z") for r, c in entry_pairs) and all(V[a_] == "Z" or V[b_] == "NZ" for a_, b_ in entry_imps): init.append(tuple(combo))
         IN = [set() for _ in b["blocks"]]; IN[0] = set(init); work = [0]
         def assign(V, key, vals):
             out = []
@@ -333,6 +342,11 @@ class ZFn:
                 if not new <= IN[nb]: IN[nb] |= new; work.append(nb)
         return IN
 
+
+
+class Body_shim:
+    def __init__(self, d):
+        self.blocks = d.get("blocks", []); self.arg_count = d.get("arg_count", 0)
 
 
 def _subs(rv):
@@ -738,6 +752,8 @@ def r_nonzero(f):
         fl = b.file.replace("\\", "/")
         if "/tests" in fl or fl.endswith("tests.rs") or b.d.get("derived"):
             continue
+        if b.self_head in ("Rows", "RowsMut", "Col", "ColMut") and b.name in ("size_hint", "len") and b.impl_trait:
+            continue      # decided by R-CURSOR under the cursor invariant, division by zero included (a non-empty slice has cols > 0)
         bd = b.d
         sites = []      # (block, index|'term', operand, what, span)
         for bi, bl in enumerate(bd["blocks"]):
@@ -802,8 +818,47 @@ def r_nonzero(f):
                 e = found.setdefault((what, span["lo"], span["col"]), {"zero": False, "span": span, "n": 0, "what": what})
                 e["zero"] = e["zero"] or zero_possible
                 e["n"] += len(states)
+        # a method on an array / view starts from the receiver's invariant: rows == 0 <=> cols == 0, and a view's stride is at
+        # least its width, so it is non-zero whenever the view is non-empty
+        pairs, imps = [], []
+        if b.self_head in ("Rows", "RowsMut") and bd["arg_count"] >= 1:
+            # cursor invariant: the remaining slice is whole rows of `cols` cells, so a non-empty slice means cols > 0; usable
+            # only while the function never replaces the slice
+            adc = [a for a in f.adts if a["id"].split("::")[-1] == b.self_head]
+            fic = {x["name"]: i for i, x in enumerate(adc[0]["fields"])} if adc else {}
+            if "v" in fic and "cols" in fic:
+                byref = bd["locals"][1].startswith("&")
+                vi = fic["v"]
+                touched = False
+                for bl in bd["blocks"]:
+                    for st in bl["stmts"]:
+                        if st["k"] == "assign":
+                            pp = st["p"]
+                            if pp["local"] == 1 and any(e["k"] == "field" and e["i"] == vi for e in pp["proj"]):
+                                touched = True
+                            rv = st["rv"]
+                            if rv["k"] in ("ref", "rawptr") and rv.get("mut", True) and rv["p"]["local"] == 1 and any(e["k"] == "field" and e["i"] == vi for e in rv["p"]["proj"]) and not any(e["k"] == "deref" for e in rv["p"]["proj"][1 if byref else 0:]):
+                                touched = True
+                if not touched:
+                    lk = ("LEN", 1, vi)
+                    ck = ("F", 1, fic["cols"]) if byref else ("L", 1, fic["cols"])
+                    add(lk); add(ck); imps.append((lk, ck))
+        if bd["arg_count"] >= 1:
+            ty1 = bd["locals"][1]
+            byref = ty1.startswith("&")
+            hd = re.sub(r"^&('\S+ )?(mut )?", "", ty1)
+            adt = [a for a in f.adts if a["id"].split("::")[-1] in ("TooDee", "TooDeeView", "TooDeeViewMut") and re.match(r"^(\w+::)*%s<" % a["id"].split("::")[-1], hd)]
+            if adt:
+                fi = {x["name"]: i for i, x in enumerate(adt[0]["fields"])}
+                def fkey(nm): return (("F", 1, fi[nm]) if byref else ("L", 1, fi[nm])) if nm in fi else None
+                rk, ck, sk = fkey("num_rows"), fkey("num_cols"), fkey("stride")
+                if any(k in tracked for k in (rk, ck, sk) if k):
+                    if rk and ck:
+                        add(rk); add(ck); pairs.append((rk, ck))
+                    if sk and ck:
+                        add(sk); imps.append((ck, sk))
         try:
-            Z.run(tracked, [], sinks)
+            Z.run(tracked, pairs, sinks, imps)
         except RecursionError:
             R.inconc(b.ident, "recursion limit")
             continue
@@ -817,5 +872,5 @@ def r_nonzero(f):
             R.inst(b.ident, "%s #%d is non-zero in every abstract state reaching it (%d states)" % (e["what"], o, e["n"]), ok)
             if not ok:
                 R.fail(b.ident, "%s#%d" % (e["what"], o), "%s: the %s can be zero on a path that reaches it (e.g. an empty array / view has zero columns): the call panics where the operation is specified for every shape including empty ones" % (b.ident, e["what"]), b.where(e["span"]))
-    R.require_floor(n, 6, "zero-sensitive sites (divisions, chunks*, step_by)")
+    R.require_floor(n, 2, "zero-sensitive sites (divisions, chunks*, step_by)")
     return R, n
